@@ -195,6 +195,19 @@ def run(ctx):
             ob.require(ok, 'Version.parse accepts on a path that does not establish membership in the 12 known versions', fvp.where)
             break
     check_dispatch(ctx, 'C07.DISPATCH')
+    adopt_serialisation(ctx)
+
+
+def adopt_serialisation(ctx):
+    """The strings this property talks about are written by _serialize for *derived* nodes too (parent fingerprint taken
+    from the parent object, default version from the node's network): C01's serialisation obligations are part of it."""
+    from . import C01
+    sub = ctx.__class__(ctx.pid, ctx.tier, ctx.p, ctx.seed)
+    C01.run(sub)
+    for o in sub.obligations:
+        if o.rule in ('C01.SER', 'C01.PFPR'):
+            o.rule = '%s.%s(=C01)' % (ctx.pid, o.rule.split('.')[1])
+            ctx.obligations.append(o)
 
 
 def check_dispatch(ctx, rule):
